@@ -197,6 +197,9 @@ pub mod errors;
 /// Static tests
 pub mod static_test;
 
+#[cfg(feature = "verif-hooks")]
+pub mod verif_hooks;
+
 mod data_row_iterator;
 mod eval_context;
 mod expr;
